@@ -362,3 +362,148 @@ Proof.
     apply (jac_is_formal_derivative R rO rI radd rmul rsub ropp Rth); assumption.
 Qed.
 End JacText.
+
+(** ** the temperature row:  (gamma - 1.0) * ( SUM ) / kerg / npar *)
+Definition gamma_id : list ascii := chars "gamma".
+Definition kerg_id : list ascii := chars "kerg".
+Definition npar_id : list ascii := chars "npar".
+Definition one_lit : list ascii := chars "1.0".
+Definition wrap_pre : list tok :=
+  [TOp "("%char; TId gamma_id; TOp "-"%char; TNum one_lit; TOp ")"%char; TOp "*"%char; TOp "("%char].
+Definition wrap_post : list tok := [TOp ")"%char; TOp "/"%char; TId kerg_id; TOp "/"%char; TId npar_id].
+Definition wrap_ex (e : ex) : ex :=
+  EBin "/"%char (EBin "/"%char (EBin "*"%char (EBin "-"%char (EVar gamma_id) (ELit one_lit)) e) (EVar kerg_id)) (EVar npar_id).
+
+(* the sum followed by anything that does not continue it *)
+Lemma pexpr_sum_rest lit ts rest n : stops_expr rest -> List.length ts + need ts + 18 <= n ->
+  pexpr n (sum_toks lit ts ++ rest) = Some (sum_ex lit ts, rest).
+Proof.
+  intros Hst Hn. do 5 (destruct n as [|n]; [lia|]).
+  unfold sum_toks. cbn [app].
+  assert (Hs : stops_term (flat_map sterm_toks ts ++ rest)) by (apply stops_term_sterms; destruct Hst; auto).
+  change (pexpr (S (S (S (S (S n))))) (TNum lit :: (flat_map sterm_toks ts ++ rest)%list))
+    with (match pterm_rest (S (S (S n))) (ELit lit) (flat_map sterm_toks ts ++ rest) with
+          | Some (l, r) => pexpr_rest (S (S (S (S n)))) l r | None => None end).
+  rewrite pterm_rest_stop by exact Hs.
+  apply pexpr_rest_terms; auto. lia.
+Qed.
+
+(* one-step unfoldings *)
+Lemma pcond_S n ts : pcond (S n) ts =
+  match prel n ts with
+  | Some (c, TOp "?"%char :: r) =>
+      match pcond n r with
+      | Some (a, TOp ":"%char :: r') => match pcond n r' with Some (b, r'') => Some (ECond c a b, r'') | None => None end
+      | _ => None end
+  | other => other end.
+Proof. reflexivity. Qed.
+Lemma prel_S n ts : prel (S n) ts =
+  match pexpr n ts with
+  | Some (a, TOp ">"%char :: r) => match pexpr n r with Some (b, r') => Some (ERel false a b, r') | None => None end
+  | Some (a, TGe :: r) => match pexpr n r with Some (b, r') => Some (ERel true a b, r') | None => None end
+  | other => other end.
+Proof. reflexivity. Qed.
+Lemma pexpr_S n ts : pexpr (S n) ts = match pterm n ts with Some (l, r) => pexpr_rest n l r | None => None end.
+Proof. reflexivity. Qed.
+Lemma pterm_S n ts : pterm (S n) ts = match punary n ts with Some (l, r) => pterm_rest n l r | None => None end.
+Proof. reflexivity. Qed.
+Lemma punary_paren n ts : punary (S n) (TOp "("%char :: ts) = pprimary n (TOp "("%char :: ts).
+Proof. reflexivity. Qed.
+Lemma pprimary_paren n ts : pprimary (S n) (TOp "("%char :: ts) =
+  match pcond n ts with Some (e, TOp ")"%char :: r') => Some (e, r') | _ => None end.
+Proof. reflexivity. Qed.
+Lemma pterm_rest_star n l ts : pterm_rest (S n) l (TOp "*"%char :: ts) =
+  match punary n ts with Some (e, r') => pterm_rest n (EBin "*"%char l e) r' | None => None end.
+Proof. reflexivity. Qed.
+Lemma pterm_rest_slash n l ts : pterm_rest (S n) l (TOp "/"%char :: ts) =
+  match punary n ts with Some (e, r') => pterm_rest n (EBin "/"%char l e) r' | None => None end.
+Proof. reflexivity. Qed.
+
+(* "gamma - 1.0" up to the closing parenthesis *)
+Lemma pcond_gamma rest n : 12 <= n ->
+  pcond n (TId gamma_id :: TOp "-"%char :: TNum one_lit :: TOp ")"%char :: rest) =
+  Some (EBin "-"%char (EVar gamma_id) (ELit one_lit), TOp ")"%char :: rest).
+Proof. intro H. do 12 (destruct n as [|n]; [lia|]). reflexivity. Qed.
+
+(* an identifier followed by "/" or by the end *)
+Lemma punary_var_slash v rest n : 3 <= n -> punary n (TId v :: TOp "/"%char :: rest) = Some (EVar v, TOp "/"%char :: rest).
+Proof. intro H. do 3 (destruct n as [|n]; [lia|]). reflexivity. Qed.
+Lemma punary_var_end v n : 3 <= n -> punary n [TId v] = Some (EVar v, []).
+Proof. intro H. do 3 (destruct n as [|n]; [lia|]). reflexivity. Qed.
+
+Theorem parse_toks_wrapped lit ts :
+  parse_toks (wrap_pre ++ sum_toks lit ts ++ wrap_post) = Some (wrap_ex (sum_ex lit ts)).
+Proof.
+  unfold parse_toks.
+  set (N := 10 * List.length (wrap_pre ++ sum_toks lit ts ++ wrap_post)%list + 10).
+  assert (HN : List.length ts + need ts + 60 <= N).
+  { unfold N. rewrite !app_length. unfold sum_toks. cbn [List.length wrap_pre wrap_post].
+    assert (G : forall l, List.length l + need l <= List.length (flat_map sterm_toks l)).
+    { induction l as [|t l IH]; simpl; auto. rewrite app_length.
+      assert (List.length (s_vars t) <= List.length (more_toks (s_vars t))).
+      { clear. unfold more_toks. induction (s_vars t) as [|f fs IHf]; simpl; auto. lia. }
+      lia. }
+    specialize (G ts). lia. }
+  clearbody N.
+  do 14 (destruct N as [|N]; [lia|]).
+  unfold wrap_pre. cbn [app].
+  (* down to the first parenthesis *)
+  rewrite pcond_S, prel_S, pexpr_S, pterm_S, punary_paren, pprimary_paren.
+  rewrite pcond_gamma by lia.
+  (* "* (" and the inner sum *)
+  rewrite pterm_rest_star, punary_paren, pprimary_paren.
+  rewrite pcond_S, prel_S.
+  rewrite pexpr_sum_rest; [| split; exact I | lia].
+  unfold wrap_post.
+  (* "/ kerg / npar" *)
+  rewrite pterm_rest_slash, punary_var_slash by lia.
+  rewrite pterm_rest_slash, punary_var_end by lia.
+  reflexivity.
+Qed.
+
+
+Lemma lex_wrap_pre r acc : lex_go 0 [] (wrap_pre_txt ++ r)%list acc = lex_go 0 [] r (rev wrap_pre ++ acc)%list.
+Proof. reflexivity. Qed.
+Lemma lex_wrap_post acc : lex_go 0 [] wrap_post_txt acc = rev (rev wrap_post ++ acc)%list.
+Proof. reflexivity. Qed.
+
+Theorem lex_wrapped ts : lex (wrapped_txt ts) = (wrap_pre ++ sum_toks zero_lit (map to_sterm ts) ++ wrap_post)%list.
+Proof.
+  unfold lex, wrapped_txt. rewrite lex_wrap_pre. unfold rhs_txt. rewrite <- app_assoc.
+  assert (H0 : forall r acc, lex_go 0 [] (map C zero_lit ++ C " "%char :: r)%list acc = lex_go 0 [] (C " "%char :: r) (TNum zero_lit :: acc)).
+  { intros r acc. reflexivity. }
+  destruct ts as [|t ts].
+  - cbn [flat_map app]. change wrap_post_txt with (C " "%char :: tx ") / kerg / npar").
+    rewrite H0. change (C " "%char :: tx ") / kerg / npar") with wrap_post_txt.
+    rewrite lex_wrap_post. rewrite rev_app_distr, rev_involutive. reflexivity.
+  - cbn [flat_map]. unfold term_txt at 1. rewrite <- !app_assoc. cbn [app]. rewrite H0.
+    replace (C " "%char :: C (if tt_neg t then "-"%char else "+"%char) :: C " "%char ::
+              (fac_txt (tt_arr t) (SMag (tt_idx t)) ++ vars_txt (tt_spaced t) (tt_vars t) ++ flat_map term_txt ts ++ wrap_post_txt))%list
+      with (term_txt t ++ flat_map term_txt ts ++ wrap_post_txt)%list
+      by (unfold term_txt; rewrite <- !app_assoc; reflexivity).
+    rewrite lex_term, lex_terms, lex_wrap_post.
+    rewrite !rev_app_distr, !rev_involutive. cbn [rev app map flat_map sum_toks].
+    rewrite <- ?app_assoc. reflexivity.
+Qed.
+
+Theorem parse_wrapped ts : parse (wrapped_txt ts) = Some (wrap_ex (sum_ex zero_lit (map to_sterm ts))).
+Proof. unfold parse. rewrite lex_wrapped. apply parse_toks_wrapped. Qed.
+
+(** composed with the index-level theorem of the temperature row *)
+Section ThermalText.
+Variable R : Type.
+Variables (rO rI : R) (radd rmul rsub : R -> R -> R) (ropp : R -> R).
+Hypothesis Rth : ring_theory rO rI radd rmul rsub ropp (@eq R).
+
+Theorem thermal_text_lemma (E : env R) (i : ode_input) (ts : list tterm) :
+  wf_input i -> has_thermal i = true -> tterms_of (rhs_row i (i_nspec i)) = Some ts ->
+  exists inner, parse (wrapped_txt ts) = Some (wrap_ex inner) /\
+    den R rO radd rmul rsub E inner =
+    rsub (therm_sum R rO rI radd rmul E (e_kh R E) 0 (i_heat i)) (therm_sum R rO rI radd rmul E (e_kc R E) 0 (i_cool i)).
+Proof.
+  intros Hwf Hth Hts. exists (sum_ex zero_lit (map to_sterm ts)). split.
+  - apply parse_wrapped.
+  - rewrite (den_sum R rO rI radd rmul rsub ropp Rth E _ _ Hts).
+    destruct (rhs_thermal_row_full R rO rI radd rmul rsub ropp Rth E i Hwf Hth) as [H _]. exact H.
+Qed.
+End ThermalText.
